@@ -158,11 +158,18 @@ def cmd_check(pid, tier):
             for (c, a, b, classes, fails) in sr.oracle_fail:
                 agree = (st.project(a) == st.project(core.strip_class(b))) if st.project else (a == core.strip_class(b))
                 kc = [x for x in classes if x in known_classes]
-                if agree and kc:
+                if kc:
+                    # the history contains a step of a recorded finding class: from that step on the
+                    # implementation is in a state the theorems exclude, so whatever follows (including a
+                    # divergence from the model, e.g. a later panic on the inconsistent buffer) belongs to it
                     for x in kc:
                         sr.known[x] = sr.known.get(x, 0) + 1
+                    if not agree:
+                        sr.known["(diverged after the class step)"] = sr.known.get("(diverged after the class step)", 0) + 1
                 else:
                     unknown.append((c, a, b, fails))
+            sr.disagree = [(c, a, b) for (c, a, b) in sr.disagree
+                           if not any(x in known_classes for x in core.CLASS.findall(b))]
             log("stream %-22s mode=%-7s cases=%-7d nontrivial=%-7d disagree=%-4d oracle_fail=%-5d known=%s  %.1fs" % (
                 sr.name, sr.mode, sr.n, sr.distinct_nontrivial, len(sr.disagree), len(sr.oracle_fail),
                 dict(sr.known), sr.wall))
